@@ -8,6 +8,12 @@ CHECKS = {
  "C01": ("differential testing against an independent reference ALU: exhaustive enumeration of the byte domain and word unary domain, lattice + proptest-generated word pairs (all 2^32 pairs in the thorough tier), and proptest-generated operand forms through assembler+interpreter with whole-machine comparison",
          "exploration; exhaustive over all byte operand pairs x carry-in x 4 prior flag words and all word INC/DEC/NEG values; word binary ops sampled in quick (boundary lattice squared + generated pairs) and enumerated over all 2^32 pairs x carry in thorough; operand forms sampled on stratified machine states with every register, every flag bit and all 1 MiB of memory compared",
          "trusted: reference ALU (bit-serial ripple adder self-checked against a wide-integer formulation at start-up), proptest, rustc; known findings quirk:incdec-cf and quirk:neg0-sf are excused only where the implementation equals the listed defect model exactly", "3/C01"),
+ "C02": ("differential testing against a step-wise reference (count repetitions of the manual's single-bit step): exhaustive enumeration of all byte values x all 256 counts x carry-in for the 7 shift/rotate functions and all byte pairs for AND/OR/XOR/TEST, lattice (quick) / all 65536 word values (thorough) x 256 counts, and proptest-generated operand forms (register, memory, label; immediate and CL counts) with whole-machine comparison and panic capture",
+         "exploration; exhaustive for the byte domain in both tiers and for word values x counts x carry in the thorough tier; operand forms sampled; 'no count makes the emulator fail' is decided by catch_unwind in a build with overflow checks",
+         "trusted: step-wise shift reference self-checked against closed forms; OF compared only for count 1, AF not compared for logic/shift (undefined in the manual)", "3/C02"),
+ "C03": ("differential testing against a 64-bit reference: exhaustive enumeration of all 2^16 AX x 256 operands for the byte MUL/IMUL/DIV/IDIV and of all AX x AF x CF for the adjusts, signed boundary lattice plus proptest-generated 48-bit triples with constructed quotient-overflow boundaries for the word forms, proptest-generated operand forms, accept sets where the documentation has two readings",
+         "exploration; byte forms and adjusts exhaustive, word forms sampled on a boundary lattice and by generated triples whose quotient is within +-1 of the bounds by construction; divide error must come back as INT 0 (State::INT(0)), never as a panic or truncated quotient",
+         "trusted: 64-bit reference arithmetic; undefined flags masked per manual; accept sets for DAA/DAS/AAA/AAS/AAM and the -128/-32768 quotient; known finding quirk:byte-imul-flags excused only where the output equals the defect model exactly", "3/C03"),
  "C06": ("exhaustive enumeration of all 2^16 flag words per jump spelling and all 2^16 CX values x ZF per LOOP/JCXZ spelling against a hand-written predicate table, plus table-independent synonym/complement relations over the outcome bitmaps",
          "exploration, exhaustive for the listed domain in both tiers: every jump/loop spelling of the grammar in both cases, assembled by the Preprocessor (forward and backward target) and executed by the Interpreter on every flag word / every CX; registers, flags and memory compared",
          "trusted: predicate table transcribed from the 8086 manual; known finding quirk:jle-and excused only where the outcome equals the defect model exactly", "3/C06"),
